@@ -15,6 +15,7 @@ pub mod c15;
 pub mod c16;
 pub mod c17;
 pub mod c18;
+pub mod c19;
 
 pub fn configs(prop: &str, tier: Tier) -> Option<Vec<Box<dyn Config>>> {
     Some(match prop {
@@ -33,6 +34,7 @@ pub fn configs(prop: &str, tier: Tier) -> Option<Vec<Box<dyn Config>>> {
         "C16" => c16::configs(tier),
         "C17" => c17::configs(tier),
         "C18" => c18::configs(tier),
+        "C19" => c19::configs(tier),
         "C09" => c09::configs_c09(tier),
         "C10" => c09::configs_c10(tier),
         _ => return None,
